@@ -164,7 +164,13 @@ func genScript(r *rng.R, tier string) corr.Case {
 		}
 	}
 	obs := func() {
-		switch r.Intn(4) {
+		switch r.Intn(5) {
+		case 4:
+			if hs := s.with(stInside); len(hs) > 0 {
+				lines = append(lines, "obj "+strconv.Itoa(hs[r.Intn(len(hs))]))
+			} else {
+				lines = append(lines, "who")
+			}
 		case 0:
 			lines = append(lines, "who")
 		case 1:
@@ -283,7 +289,7 @@ func genMalformed(r *rng.R) corr.Case {
 		"acqR 1 x5", "acqR 1 i05", "acqR 1 i+5", "acqR 1 i", "acqW 1234567890 i1", "acqR 1 i9223372036854775808",
 		"acqR -1 i5", "new single 0 0", "new triple 2 0", "new single 2", "new single 02 0", "new single 2 12345",
 		"new single 1234567 0", "state", "state k", "inside", "inside 5", "who now", "entries 1", "ACQR 1 i5", "acqRx 3",
-		"acqZ 1 i5", "rel 1 2", "relx 1", "relx 1 x", "relx 99 1", "state i05", "inside i--1", "new wide 2 -1"}
+		"acqZ 1 i5", "rel 1 2", "relx 1", "relx 1 x", "relx 99 1", "obj", "obj 99", "obj x", "state i05", "inside i--1", "new wide 2 -1"}
 	n := r.Range(6, 16)
 	next := 1
 	var held []int
@@ -420,7 +426,7 @@ func fixedCases() []corr.Case {
 	mk := func(tag string, lines ...string) corr.Case { return corr.Case{Tag: tag, Lines: lines} }
 	return []corr.Case{
 		// F01: two readers, one leaves, a writer is admitted beside the other reader
-		mk("witness-F01", "new single 3 0", "acqR 1 i7", "acqR 2 i7", "state i7", "rel 1", "state i7", "acqW 9 i7", "inside i7", "who", "entries"),
+		mk("witness-F01", "new single 3 0", "acqR 1 i7", "acqR 2 i7", "state i7", "rel 1", "state i7", "acqW 9 i7", "inside i7", "obj 2", "obj 9", "who", "entries"),
 		mk("witness-F01-wide", "new wide 2 2", "acqR 1 s", "acqR 2 s", "rel 2", "acqW 3 s", "inside s", "rel 1", "rel 3", "entries"),
 		// F01, further consequences: more than rwRatio readers; an arrival overtakes a blocked caller of an orphaned object
 		mk("witness-F01-readers", "new single 2 0", "acqR 1 i0", "acqR 2 i0", "rel 1", "acqR 3 i0", "acqR 4 i0", "inside i0", "who"),
@@ -479,7 +485,7 @@ func spec() corr.Spec {
 		},
 		Run: runCase,
 		TOnly: func(line string) bool {
-			return strings.HasPrefix(line, "state ")
+			return strings.HasPrefix(line, "state ") || strings.HasPrefix(line, "obj ")
 		},
 		NonTrivial: func(c corr.Case, r corr.Result) bool {
 			// somebody had to wait, or a release/cancel admitted somebody
